@@ -566,7 +566,7 @@ func init() {
 	register(&Check{
 		ID: "C07",
 		Expl: "(E6.holdtime-min) the session runs on min(local, remote) hold time and a keepalive interval of a third of it whenever that is below the configured one. Decides the part of the session state machine visible in the handlers' shape: (E5.transitions) the next states each state handler can return ⊆ RFC 4271 §8 (extracted through phis, defer-spilled results and handleOpen); (E6.fsm-gates) Established only behind a KEEPALIVE in OpenConfirm, OpenConfirm only behind a validated OPEN (incl. the outgoing-connection manager's hand-over), Idle→Active only while administratively up (finite-domain evaluation over the admin states); " +
-			"(E6.notification-per-exit) hold-timer, administrative-shutdown, prefix-limit and FSM-error exits build the prescribed NOTIFICATION code/subcode; (E6.unexpected-message) OpenConfirm answers OPEN/UPDATE/ROUTE-REFRESH with FSM-error/2 on every path (evaluated per message type), Established dispatches on every message type and answers OPEN with FSM-error/3, both outcomes of each collision decision close the loser with Cease/7; (E6.established-gate) received routing messages reach the RIB only past the Established test; (E6.as-trans) collision resolution compares the real (4-octet aware) AS. Also: (E6.hold-reset) only UPDATE and KEEPALIVE restart the hold timer (per message type); (E6.hold-timer-source) timer code never reads the locally configured hold time; (E6.prefix-limit-every-family) the prefix-limit test cannot be skipped for a configured family. (E4.case-ratchet) against a committed baseline, no switch of the code this property is anchored in has lost a named case. (E6.call-ratchet) against a committed baseline, no function of that code has stopped calling (directly or through helpers) a non-trivial callee it called on the reviewed tree.",
+			"(E6.notification-per-exit) hold-timer, administrative-shutdown, prefix-limit and FSM-error exits build the prescribed NOTIFICATION code/subcode; (E6.unexpected-message) OpenConfirm answers OPEN/UPDATE/ROUTE-REFRESH with FSM-error/2 on every path (evaluated per message type), Established dispatches on every message type and answers OPEN with FSM-error/3, both outcomes of each collision decision close the loser with Cease/7; (E6.established-gate) received routing messages reach the RIB only past the Established test; (E6.as-trans) collision resolution compares the real (4-octet aware) AS. Also: (E6.hold-reset) only UPDATE and KEEPALIVE restart the hold timer (per message type); (E6.hold-timer-source) timer code never reads the locally configured hold time; (E6.prefix-limit-every-family) the prefix-limit test cannot be skipped for a configured family; (E1c.reader-conn-closed) a state function that replaces the session connection while its reader goroutine runs closes the old connection before it returns, so the state never parks behind a silent connection with its hold timer unserved. (E4.case-ratchet) against a committed baseline, no switch of the code this property is anchored in has lost a named case. (E6.call-ratchet) against a committed baseline, no function of that code has stopped calling (directly or through helpers) a non-trivial callee it called on the reviewed tree.",
 		Not: "Timer instants, event orders, which connection survives a collision for given identifiers, and the correspondence of reported and real state over histories are not decided. Not armed: connections accepted while a session is already in progress are closed without a Cease, and the OpenSent FSM-error NOTIFICATION carries no data octet (both noted while triaging F9–F11, DESIGN.md §8.4).",
 		Run: func(c *Ctx) {
 			c.ruleRatchets("C07")
@@ -578,6 +578,7 @@ func init() {
 			c.ruleHoldResetOnlyOnLiveness("E6.hold-reset")
 			c.ruleHoldTimerSource("E6.hold-timer-source")
 			c.rulePrefixLimitEveryFamily("E6.prefix-limit-every-family")
+			c.ruleReaderConnClosed("E1c.reader-conn-closed", 2)
 			c.ruleEstablishedOnlyRIB()
 			c.ruleASNReaders()
 		},
